@@ -309,6 +309,13 @@ class SharedMemoryManager:
         return memory
 
     @classmethod
+    def remove_shared_memory(cls, node_name: str, key: Optional[int] = None) -> None:
+        """Forget about a shared memory, such that its key can be used again.
+
+        Objects that already hold a reference to the memory can still use it."""
+        cls._MEMORIES.pop((node_name, key), None)
+
+    @classmethod
     def reset_memories(cls) -> None:
         for key in list(cls._MEMORIES.keys()):
             cls._MEMORIES.pop(key)
